@@ -379,7 +379,7 @@ class ReactionQueryReader(object):
         assert tree[1][0] == 'GroupName'
         assert tree[2][0] == 'LabelMapping'
         labelmapping = self.LabelMapping(tree[2][1:])
-        if tree[1][1] not in self.RINGgroups:
+        if not self.RINGgroups or tree[1][1] not in self.RINGgroups:
             raise RINGReaderError("ReactantGroup: Unrecognized group name:'"
                                   + tree[1][1] + "'")
 
@@ -413,6 +413,9 @@ class ReactionQueryReader(object):
         assert tree[1][0] == 'ReactantName'
         assert tree[2][0] == 'LabelMapping'
         labelmapping = self.LabelMapping(tree[2][1:])
+        if tree[1][1] not in reactionquery.reactantquery:
+            raise RINGReaderError("ReadDuplicates: Unrecognized reactant "
+                                  "name: '" + tree[1][1] + "'")
         if len(labelmapping) != len(reactionquery.reactantquery[tree[1][1]].
                                     atom_names):
             raise RINGReaderError('ReadDuplicates: Labelmapping length',
@@ -449,9 +452,9 @@ class ReactionQueryReader(object):
             self.electronbalance += [0]*len(molquery.atom_names)
             self.atom_belonging_mol += [molquery.name]*len(molquery.atom_names)
         elif tree[0][0] == 'ReactantGroup':
-            self.ReadReactantGroup(tree[1][1:], reactionquery)
+            self.ReadReactantGroup(tree[0][1:], reactionquery)
         elif tree[0][0] == 'Duplicates':
-            self.ReadDuplicates(tree[1][1:], reactionquery)
+            self.ReadDuplicates(tree[0][1:], reactionquery)
         if len(tree) == 2:
             self.ReadReactants(tree[1][1:], reactionquery)
 
